@@ -11,6 +11,7 @@ import (
 	"path/filepath"
 
 	"github.com/douban/gobeansdb/cmem"
+	"github.com/douban/gobeansdb/config"
 	"verif/ref"
 	"verif/vfc"
 )
@@ -80,6 +81,9 @@ func vfC09RoundTrip(env *vfc.Env, id string, r *ref.Rand, dir string) {
 	recs := make([]*ref.Record, n)
 	for i := range recs {
 		recs[i] = vfRandRecord(r, 70000)
+		if r.Intn(25) == 0 { // the largest value the configured limit allows, and one byte less
+			recs[i].Value = r.Bytes(int(vfBodyMax()) - r.Pick(0, 0, 1))
+		}
 	}
 	useAppend := r.Bool()
 	var expect []byte
@@ -486,6 +490,15 @@ func vfC09Corrupt(env *vfc.Env, id string, r *ref.Rand, dir string, a *vfC09Args
 	n := r.Range(1, a.MaxRecs)
 	small := r.Intn(3) > 0
 	var img []byte
+	// every third image is written and scanned under a small body_max, with values of exactly
+	// body_max and body_max-1 bytes among its records (the largest value the limit allows)
+	oldBM := config.MCConf.BodyMax
+	defer func() { config.MCConf.BodyMax = oldBM }()
+	atLimit := r.Intn(3) == 0
+	if atLimit {
+		config.MCConf.BodyMax = int64(r.Pick(300, 600, 1000, 2999))
+		res.Event("corrupt.images_with_values_at_body_max", 1)
+	}
 	for i := 0; i < n; i++ {
 		mv := 3000
 		if small {
@@ -497,6 +510,15 @@ func vfC09Corrupt(env *vfc.Env, id string, r *ref.Rand, dir string, a *vfC09Args
 		rec := vfRandRecord(r, mv)
 		if small && len(rec.Value) > 300 {
 			rec.Value = rec.Value[:300]
+		}
+		if atLimit {
+			bm := int(config.MCConf.BodyMax)
+			if len(rec.Value) > bm {
+				rec.Value = rec.Value[:bm]
+			}
+			if i%3 == 1 || n == 1 {
+				rec.Value = r.Bytes(bm - r.Pick(0, 0, 1))
+			}
 		}
 		img = append(img, rec.Encode()...)
 	}
